@@ -67,6 +67,8 @@ pub trait ReadonlyRandomAccessFile {
 
     fn len(&self) -> (r: Result<u64, std::io::Error>)
         ensures r matches Ok(n) ==> n as int == self.contents().len(),
+            // a metadata query does not fail with "unexpected end of file"
+            r matches Err(e) ==> io_kind(&e) != ErrorKind::UnexpectedEof,
     ;
 }
 
